@@ -6,6 +6,7 @@
 -/
 import XMT.PacketWire
 import XMT.FlagLemmas
+import XMT.TieXlate
 namespace XMT.Props.C01
 open XMT XMT.Codec XMT.Packet
 
@@ -193,5 +194,93 @@ theorem flag_unset_fields (f n : Nat) (hn : n < 2^16) :
   unfold len position group bits unset u16
   refine ⟨by rw [hs 48 (by decide)], by rw [hs 32 (by decide)], by rw [hs 16 (by decide)], hmod, ?_⟩
   rw [hmod]; omega
+
+/-! ### The same laws for the functions AS THE SOURCE HAS THEM NOW
+
+`Facts.x_com_Flag_*` are regenerated on every run from the current `com/flag.go` by the Go→Lean
+translator of the harness (`go/cmd/xmth/xlate.go`: Go's unsigned semantics written out naively, every
+conversion / shift-left followed by `% 2^w`); `XMT/TieXlate.lean` proves each of them equal to the
+hand-written model for all arguments. The field-independence laws are restated here for the
+regenerated getters and setters: they are theorems about what the code says now, not about a model
+that is only sampled against it. -/
+section Src
+open XMT.TieXlate
+
+/-- `SetLen` of the current source: sets the count, keeps position, group and flag bits, only adds
+`FlagFrag`; the result is a 64-bit word. -/
+theorem src_setLen_fields (f n : Nat) (hn : n < 2^16) :
+    Facts.x_com_Flag_Len (Facts.x_com_Flag_SetLen f n) = n ∧
+    Facts.x_com_Flag_Position (Facts.x_com_Flag_SetLen f n) = Facts.x_com_Flag_Position f ∧
+    Facts.x_com_Flag_Group (Facts.x_com_Flag_SetLen f n) = Facts.x_com_Flag_Group f ∧
+    bits (Facts.x_com_Flag_SetLen f n) = bits f ||| Facts.flagFrag ∧ Facts.x_com_Flag_SetLen f n < 2^64 := by
+  simp only [x_com_Flag_SetLen_eq, x_com_Flag_Len_eq, x_com_Flag_Position_eq, x_com_Flag_Group_eq]
+  exact setLen_fields f n hn
+
+/-- `SetPosition` of the current source. -/
+theorem src_setPosition_fields (f n : Nat) (hn : n < 2^16) :
+    Facts.x_com_Flag_Position (Facts.x_com_Flag_SetPosition f n) = n ∧
+    Facts.x_com_Flag_Len (Facts.x_com_Flag_SetPosition f n) = Facts.x_com_Flag_Len f ∧
+    Facts.x_com_Flag_Group (Facts.x_com_Flag_SetPosition f n) = Facts.x_com_Flag_Group f ∧
+    bits (Facts.x_com_Flag_SetPosition f n) = bits f ||| Facts.flagFrag ∧
+    Facts.x_com_Flag_SetPosition f n < 2^64 := by
+  simp only [x_com_Flag_SetPosition_eq, x_com_Flag_Len_eq, x_com_Flag_Position_eq, x_com_Flag_Group_eq]
+  exact setPosition_fields f n hn
+
+/-- `SetGroup` of the current source (on a 64-bit word). -/
+theorem src_setGroup_fields (f n : Nat) (hn : n < 2^16) (hf : f < 2^64) :
+    Facts.x_com_Flag_Group (Facts.x_com_Flag_SetGroup f n) = n ∧
+    Facts.x_com_Flag_Len (Facts.x_com_Flag_SetGroup f n) = Facts.x_com_Flag_Len f ∧
+    Facts.x_com_Flag_Position (Facts.x_com_Flag_SetGroup f n) = Facts.x_com_Flag_Position f ∧
+    bits (Facts.x_com_Flag_SetGroup f n) = bits f ||| Facts.flagFrag ∧
+    Facts.x_com_Flag_SetGroup f n < 2^64 := by
+  simp only [x_com_Flag_SetGroup_eq, x_com_Flag_Len_eq, x_com_Flag_Position_eq, x_com_Flag_Group_eq]
+  exact setGroup_fields f n hn hf
+
+/-- `Clear` of the current source, on a fragment: count, position and group become 0, the fragment
+mark is dropped, the other flag bits stay. -/
+theorem src_clear_fields (f : Nat) (hfrag : bits f % 2 = 1) :
+    Facts.x_com_Flag_Len (Facts.x_com_Flag_Clear f) = 0 ∧ Facts.x_com_Flag_Position (Facts.x_com_Flag_Clear f) = 0 ∧
+    Facts.x_com_Flag_Group (Facts.x_com_Flag_Clear f) = 0 ∧ Facts.x_com_Flag_Clear f = bits f - Facts.flagFrag := by
+  simp only [x_com_Flag_Clear_eq, x_com_Flag_Len_eq, x_com_Flag_Position_eq, x_com_Flag_Group_eq]
+  exact clear_fields f hfrag
+
+/-- `Set` of the current source with a mask inside the 16 flag bits. -/
+theorem src_flag_set_fields (f n : Nat) (hn : n < 2^16) :
+    Facts.x_com_Flag_Len (Facts.x_com_Flag_Set f n) = Facts.x_com_Flag_Len f ∧
+    Facts.x_com_Flag_Position (Facts.x_com_Flag_Set f n) = Facts.x_com_Flag_Position f ∧
+    Facts.x_com_Flag_Group (Facts.x_com_Flag_Set f n) = Facts.x_com_Flag_Group f ∧
+    bits (Facts.x_com_Flag_Set f n) = bits f ||| n := by
+  simp only [x_com_Flag_Set_eq, x_com_Flag_Len_eq, x_com_Flag_Position_eq, x_com_Flag_Group_eq]
+  exact flag_set_fields f n hn
+
+/-- `Unset` of the current source (`*f &^ n`, on a 64-bit word) with a mask inside the 16 flag bits. -/
+theorem src_flag_unset_fields (f n : Nat) (hn : n < 2^16) (hf : f < 2^64) :
+    Facts.x_com_Flag_Len (Facts.x_com_Flag_Unset f n) = Facts.x_com_Flag_Len f ∧
+    Facts.x_com_Flag_Position (Facts.x_com_Flag_Unset f n) = Facts.x_com_Flag_Position f ∧
+    Facts.x_com_Flag_Group (Facts.x_com_Flag_Unset f n) = Facts.x_com_Flag_Group f ∧
+    bits (Facts.x_com_Flag_Unset f n) = bits f - (bits f &&& n) ∧ bits (Facts.x_com_Flag_Unset f n) ≤ bits f := by
+  simp only [x_com_Flag_Unset_eq f n hf, x_com_Flag_Len_eq, x_com_Flag_Position_eq, x_com_Flag_Group_eq]
+  exact flag_unset_fields f n hn
+
+/-- **The hand-written model of `com/flag.go` IS the current source**, function by function, for every
+64-bit word and every argument (the statement the differential run only samples). -/
+theorem src_flag_model (f n : Nat) (hf : f < 2^64) :
+    Facts.x_com_Flag_Len f = len f ∧ Facts.x_com_Flag_Position f = position f ∧ Facts.x_com_Flag_Group f = group f ∧
+    Facts.x_com_Flag_SetLen f n = setLen f n ∧ Facts.x_com_Flag_SetPosition f n = setPosition f n ∧
+    Facts.x_com_Flag_SetGroup f n = setGroup f n ∧ Facts.x_com_Flag_Clear f = clear f ∧
+    Facts.x_com_Flag_Set f n = Flag.set f n ∧ Facts.x_com_Flag_Unset f n = unset f n :=
+  ⟨x_com_Flag_Len_eq f, x_com_Flag_Position_eq f, x_com_Flag_Group_eq f, x_com_Flag_SetLen_eq f n,
+   x_com_Flag_SetPosition_eq f n, x_com_Flag_SetGroup_eq f n, x_com_Flag_Clear_eq f, x_com_Flag_Set_eq f n,
+   x_com_Flag_Unset_eq f n hf⟩
+
+/-! Non-vacuity: the regenerated functions compute (kernel evaluation), the hypotheses are met. -/
+example : Facts.x_com_Flag_SetLen 0x0003000200010001 5 = 0x0005000200010001 := by decide
+example : Facts.x_com_Flag_SetGroup 0x0003000200010008 0xFFFF = 0x00030002FFFF0009 := by decide
+example : Facts.x_com_Flag_Clear 0x0003000200010009 = 8 ∧ bits 0x0003000200010009 % 2 = 1 := by decide
+example : Facts.x_com_Flag_Unset 0xFFFFFFFFFFFFFFFF 0x8000 = 0xFFFFFFFFFFFF7FFF ∧ (0x8000 : Nat) < 2^16 ∧
+    (0xFFFFFFFFFFFFFFFF : Nat) < 2^64 := by decide
+example : Facts.x_com_Flag_SetPosition_src = "*f = Flag(f.Len())<<48 | Flag(n)<<32 | Flag(uint32(*f)) | FlagFrag" := by decide
+end Src
+
 
 end XMT.Props.C01
